@@ -1,8 +1,111 @@
-import DendroModel.Basic.Tree
-open DendroModel
+import DendroModel.Model.C14NJ
+open DendroModel DendroModel.C14
+
+def showEntry (e : Entry Nat Frac) : String :=
+  s!"{e.a}:{e.b}:{e.d.render}:{e.steps}:{e.mrca}"
+
+def unwords (l : List String) : String := " ".intercalate l
+
+/-- the library asserts `desc1.taxon is not None` for every leaf it meets in a child's table -/
+def assertFails (t : T) : Bool := !t.isLeaf && t.leaves.any (fun lf => lf.taxon.isNone)
+
+def parseKeep (s : String) : Option (Nat → Bool) :=
+  if s == "*" then some (fun _ => true)
+  else if s == "-" then some (fun _ => false)
+  else match (s.splitOn ",").mapM String.toNat? with
+    | some ks => some (fun k => ks.contains k)
+    | none => none
+
+def parseNatCsv (s : String) : Option (List Nat) :=
+  if s == "-" then some [] else (s.splitOn ",").mapM String.toNat?
+
+partial def showNT : NT Frac → List String
+  | .leaf i => ["L", toString i]
+  | .node f lf g lg => ["N", lf.render, lg.render] ++ showNT f ++ showNT g
+
+def parseMatrix (n : Nat) (ws : List String) : Option (Nat → Nat → Frac) :=
+  if ws.length ≠ n * n then none else
+  match ws.mapM Frac.parse with
+  | some vs =>
+    let arr := vs.toArray
+    some (fun a b => arr[a * n + b]!)
+  | none => none
+
+mutual
+/-- structure only: `(id child …)` -/
+def shape : T → String
+  | .node i _ _ _ cs => "(" ++ toString i ++ shapeL cs ++ ")"
+def shapeL : List T → String
+  | [] => ""
+  | c :: cs => " " ++ shape c ++ shapeL cs
+end
+
+def optFrac : Option Frac → String
+  | some f => f.render
+  | none => "Null"
 
 def handle (ws : List String) : String :=
   match ws with
+  | "pdm" :: rest =>
+    match parseTree rest with
+    | some (t, []) =>
+      if assertFails t then "AssertionError" else
+      let tbl := table fracLen taxonKey t
+      unwords (["ok", (treeLength fracLen t).render, toString (numEdges t), "|"] ++ tbl.map showEntry)
+    | _ => "bad-op"
+  | "spec" :: rest =>
+    match parseTree rest with
+    | some (t, []) =>
+      if assertFails t then "AssertionError" else
+      let ks := mapped taxonKey t
+      let cells := ks.flatMap fun a => ks.filterMap fun b =>
+        if a = b then none else
+        match turn fracLen taxonKey t a b with
+        | some (d, n, m) => some (showEntry ⟨a, b, d, n, m⟩)
+        | none => some s!"{a}:{b}:none"
+      unwords ("ok" :: cells)
+    | _ => "bad-op"
+  | "summ" :: kind :: weighted :: norm :: keep :: rest =>
+    match parseKeep keep, parseTree rest with
+    | some keep, some (t, []) =>
+      if assertFails t then "AssertionError" else
+      let w := weighted == "1"
+      let nf : Frac := if norm == "1" then (if w then treeLength fracLen t else ((numEdges t : Nat) : Frac)) else Frac.one
+      if nf.isZero then "ZeroDivisionError" else
+      let val : Entry Nat Frac → Frac := if w then (·.d) else fun e => ((e.steps : Nat) : Frac)
+      let es := entries fracLen taxonKey t
+      let tbl := table fracLen taxonKey t
+      match kind with
+      | "mpd" => optFrac (meanPairwise val nf keep es)
+      | "mntd" =>
+        let cell := fun a b => match lookup tbl a b with | some e => val e | none => Frac.zero
+        optFrac (meanNearest cell nf keep (mapped taxonKey t))
+      | "dists" => unwords ((pairValues val keep es).map fun d => (d / nf).render)
+      | _ => "bad-op"
+    | _, _ => "bad-op"
+  | "mrca" :: rooted :: refresh :: target :: start :: stored :: rest =>
+    match target.toNat?, start.toNat?, parseNatCsv stored, parseTree rest with
+    | some target, some start, some stored, some (t, []) =>
+      let arr := stored.toArray
+      match treeMrca (rooted == "1") (refresh == "1") (fun i => arr[i]?.getD 0) target start t with
+      | .valueError => "ValueError"
+      | .startGone => "start-gone"
+      | .found t' r => (match r with | some u => toString u.id | none => "None") ++ " | " ++ shape t'
+    | _, _, _, _ => "bad-op"
+  | "nj" :: n :: rest =>
+    match n.toNat? with
+    | some n =>
+      match parseMatrix n rest with
+      | some d => (match njTree n d with | some r => unwords (showNT r) | none => "IndexError")
+      | none => "bad-op"
+    | none => "bad-op"
+  | "upgma" :: n :: rest =>
+    match n.toNat? with
+    | some n =>
+      match parseMatrix n rest with
+      | some d => (match upgmaTree n d with | some r => unwords (showNT r) | none => "IndexError")
+      | none => "bad-op"
+    | none => "bad-op"
   | _ => "bad-op"
 
 def main : IO Unit := do driverLoop (← IO.getStdin) handle
